@@ -24,7 +24,7 @@ def cases(tier, seed):
         o = opts(rng.choice(["genome", "cis"]), rng.choice([0, 1, 2]))
         yield "bl.pipeline", {"table": table, "px": px, "o": o, "chunk": chunk, "default_spans": h % 2 == 0,
                               "map": ["seq", "reversed", "perm", "perm"][h % 4], "seed": h,
-                              **({"at": "/a/b"} if h % 7 == 3 else {})}
+                              **({"at": "/a/b"} if h % 7 == 3 else {}), "stale": h % 5 == 2}
     # (2) full balancing runs under many chunk sizes and map implementations
     big = [gen.binnify([10], 1), gen.binnify([7, 6], 1), gen.binnify([5, 5, 4], 1)]
     for h in range(30 if tier == "quick" else 500):
@@ -45,8 +45,13 @@ def cases(tier, seed):
             runs = runs[:1] + rng.sample(runs[1:], 5)
         if h % 6 == 2:
             runs += [[5, "pool.map"], [4, "pool.imap"], [3, "pool.imap_unordered"]]
+        if h % 6 == 4 and not o["mad"]:
+            runs += [[0, "cli.1"], [7, "cli.2"], [0, "cli.8"]]               # the command line with 1, 2, 8 worker processes
+            if h % 12 == 4:
+                px = px[:rng.randint(1, 6)]                                   # fewer stored pixels than processes
+                nnz = len(px)
         yield "bl.schedules", {"table": table, "px": px, "o": o, "runs": runs, "seed": h, "workers": 2 + h % 2,
-                               **({"at": "/resolutions/1000"} if h % 5 == 3 else {})}
+                               **({"at": "/resolutions/1000"} if h % 5 == 3 else {}), "stale": h % 4 == 1}
 
 
 def run(tier, seed, only_case=None):
